@@ -106,6 +106,7 @@ def _quotes_balanced(t):
 
 HDR_FN = re.compile(r'^fn (.+?)\((.*)\) -> (.+) \{$')
 HDR_CONST = re.compile(r'^(const|static(?: mut)?) (.+): (.+?) = \{$')
+HDR_PROMOTED = re.compile(r'^(const) (.+?::promoted\[\d+\]): (.+) = \{$')
 HDR_CONST1 = re.compile(r'^(const|static(?: mut)?) (.+): (.+?) = (const .+);$')
 
 
@@ -156,7 +157,7 @@ def parse_text(path):
                     continue
                 if raw.startswith(('const ', 'static ')):
                     line = strip_comment(raw.rstrip('\n'))
-                    m = HDR_CONST.match(line)
+                    m = HDR_PROMOTED.match(line) or HDR_CONST.match(line)
                     if m:
                         cur = Body(m.group(2), m.group(1), line); cur.ret = m.group(3)
                         cur.locals['_0'] = m.group(3)
